@@ -1,9 +1,9 @@
 (* C04 - channel membership is one consistent relation that follows the history.  Statements
    only; proofs in IRCP.InvDefs / IRCP.InvStep / IRCP.Reach (invariant), IRCP.JoinP2, IRCP.ChanP,
-   IRCP.InvNick (effects of the single operations).  The agreement of the NAMES / WHO / WHOIS
-   texts with this relation is checked by the correspondence oracle (views_oracle), level L2. *)
+   IRCP.InvNick (effects of the single operations), IRCP.ViewsP (what NAMES and WHOIS print).  The
+   WHO text and the announcement-derived rosters are checked by the correspondence oracles (L2). *)
 From IRC Require Import Str Wild Glob Parse Reply State Handlers Step.
-From IRCP Require Import InvDefs InvPrims InvNick InvStep Reach.
+From IRCP Require Import InvDefs InvPrims InvNick InvStep Reach ViewsP.
 From stdpp Require Import gmap.
 
 Section C04.
@@ -37,8 +37,52 @@ Proof.
   destruct (is_cu (sh w) (iw_s w I) ch co n Hco Hn) as [u [Hu _]]. destruct (iw_uc w I n u Hu) as [c Hc]. eauto.
 Qed.
 
+(* NAMES: the 353 lines carry exactly the members of the channel the viewer may see (everybody for a
+   member; the non-invisible ones for an outsider of a non-secret channel), each once, with its
+   rank prefix; a secret channel gives a non-member nothing *)
+Theorem C04_names_text : forall s c client nick ch co with_end, InvS s -> chans s !! ch = Some co ->
+  let inch := bool_decide (nick ∈ dom (ch_users co)) in
+  names_lines s c client nick ch co with_end =
+  if negb (cm_secret (ch_modes co)) || inch then
+    let names := List.map (name_entry c) (List.filter (name_visible s inch) (map_to_list (ch_users co))) in
+    Ok (List.map (rpl_namreply client (if cm_secret (ch_modes co) then lit "@" else lit "=") ch) (chunks 20 names)
+        ++ if with_end then [rpl_endofnames client ch] else [])
+  else Ok [].
+Proof. exact names_lines_spec. Qed.
+
+Theorem C04_names_complete : forall s c inch co n r,
+  ch_users co !! n = Some r -> name_visible s inch (n, r) = true ->
+  name_entry c (n, r) ∈ concat (chunks 20 (List.map (name_entry c) (List.filter (name_visible s inch) (map_to_list (ch_users co))))).
+Proof. exact names_complete. Qed.
+
+Theorem C04_names_sound : forall s c inch co e,
+  e ∈ concat (chunks 20 (List.map (name_entry c) (List.filter (name_visible s inch) (map_to_list (ch_users co))))) ->
+  exists n r, ch_users co !! n = Some r /\ name_visible s inch (n, r) = true /\ e = name_entry c (n, r).
+Proof. exact names_sound. Qed.
+
+(* WHOIS: the 319 lines carry exactly the non-secret channels of the user's own membership set,
+   each once, with the user's rank prefix there (nothing at all for an invisible user sharing no
+   channel with the viewer) *)
+Theorem C04_whois_text : forall s c client viewer n u r0, InvS s -> users s !! n = Some u ->
+  whois_one cfg s c client viewer n = Ok r0 ->
+  (um_invisible (u_modes u) && sets_disjoint (u_chans u) (u_chans viewer) = true /\ r0 = []) \/
+  (um_invisible (u_modes u) && sets_disjoint (u_chans u) (u_chans viewer) = false /\
+   exists pre post, r0 = pre ++ List.map (rpl_whoischannels client n)
+                              (chunks 30 (List.map (whois_chan_entry s c n) (List.filter (whois_chan_visible s) (elements (u_chans u))))) ++ post).
+Proof. exact (whois_channels_spec cfg). Qed.
+
+(* the two views read one relation: n is on #ch's roster iff #ch is in n's membership set *)
+Theorem C04_views_agree : forall s n u ch co, InvS s -> users s !! n = Some u -> chans s !! ch = Some co ->
+  (n ∈ dom (ch_users co) <-> ch ∈ u_chans u).
+Proof. exact views_agree. Qed.
+
 End C04.
 
 Print Assumptions C04_symmetric.
 Print Assumptions C04_rank_lists.
 Print Assumptions C04_members_live.
+Print Assumptions C04_names_text.
+Print Assumptions C04_names_complete.
+Print Assumptions C04_names_sound.
+Print Assumptions C04_whois_text.
+Print Assumptions C04_views_agree.
